@@ -212,4 +212,92 @@ theorem ordered_recoverable (ts ts' : List Inst) (pw : List (PatDesc × Option I
           rw [hd] at this
           exact this
 
+
+theorem resolveField_mem {ds : List TokenDesc} {f : String} {fd : FieldDesc} (h : resolveField ds f = some fd) :
+    ∃ t ∈ ds, fd ∈ t.fields := by
+  induction ds with
+  | nil => simp [resolveField] at h
+  | cons t rest ih =>
+    unfold resolveField at h
+    split at h
+    · rename_i ff hff
+      cases h
+      exact ⟨t, by simp, findField_mem hff⟩
+    · obtain ⟨t', ht', hfd⟩ := ih h
+      exact ⟨t', by simp [ht'], hfd⟩
+
+theorem patWrites_pats (flat : List (InstrDesc × Vals)) :
+    (patWrites flat).map (·.1) = (flat.map (·.1)).flatMap (·.patterns) := by
+  induction flat with
+  | nil => rfl
+  | cons a rest ih =>
+    obtain ⟨c, vals⟩ := a
+    simp only [patWrites, List.flatMap_cons, List.map_append, List.map_map, List.map_cons] at ih ⊢
+    rw [ih]
+    congr 1
+    induction c.patterns with
+    | nil => rfl
+    | cons p ps ihp => simp [ihp]
+
+theorem descs_init (ds : List TokenDesc) : descs (ds.map (fun d => (d, d.init))) = ds := by
+  induction ds with
+  | nil => rfl
+  | cons d rest ih =>
+    simp only [descs, List.map_cons, List.cons.injEq, true_and] at ih ⊢
+    exact ih
+
+open Spec.Field in
+/-- C10 (3), lifted: for a declarative instance whose class shape passes `checkFlat`, after
+    `Instruction.encode` every field written from an operand holds `v mod 2^w`, and reading it back under
+    the field's declared signedness gives the operand `v` if and only if `v` fits the field. -/
+theorem encode_operand_fields (tt : List TokenDesc) (flat : List (InstrDesc × Vals)) (ts : List Inst)
+    (hchk : checkFlat tt (flat.map (·.1)) = true) (henc : encodeTokens tt flat = .ok ts) :
+    ∀ pv ∈ patWrites flat, isFixed pv.1.val = false →
+      ∃ v fd raw, pv.2 = some v ∧ seqGet ts pv.1.field = .ok raw ∧ (raw : Int) = v % 2 ^ width fd
+        ∧ (decode fd.signed (width fd) raw = v ↔ fits fd.signed (width fd) v) := by
+  unfold checkFlat at hchk
+  unfold encodeTokens at henc
+  cases hds : tokenDescs tt (flat.map (·.1)) with
+  | none => rw [hds] at hchk; cases hchk
+  | some ds =>
+    rw [hds] at hchk henc
+    simp only [Bool.and_eq_true] at hchk
+    obtain ⟨⟨hwfb, hord⟩, _⟩ := hchk
+    cases hws : writes flat with
+    | none => rw [hws] at henc; cases henc
+    | some ws =>
+      rw [hws] at henc
+      simp only at henc
+      have hdescs : descs (ds.map (fun d => (d, d.init))) = ds := descs_init ds
+      have hwf : ∀ t ∈ descs (ds.map (fun d => (d, d.init))), wfToken t = true := by
+        rw [hdescs]; exact fun t ht => List.all_eq_true.mp hwfb t ht
+      intro pv hpv hnf
+      obtain ⟨v, fd, h1, h2, h3⟩ := ordered_recoverable _ ts (patWrites flat) ws hwf hws henc
+        (by rw [hdescs, patWrites_pats]; exact hord) pv hpv hnf
+      rw [hdescs] at h2
+      obtain ⟨t, ht, hfd⟩ := resolveField_mem h2
+      have hW := wf_of_wfToken (List.all_eq_true.mp hwfb t ht) hfd
+      refine ⟨v, fd, stored (width fd) v, h1, h3, stored_cast _ _, ?_⟩
+      rw [stored_cast]
+      exact decode_stored_iff fd.signed (width_pos hW) v
+
+/-- what `isaOK` gives for one class: every declarative shape of a covered class passes `checkFlat` -/
+theorem instrOK_shapes {tt : List TokenDesc} {is : List InstrDesc} (hok : isaOK tt is = true)
+    {c : InstrDesc} (hc : c ∈ is) (hcov : covered c = true) :
+    ∃ flats, expand is expandFuel c = some flats
+      ∧ ∀ flat ∈ flats, declarativeFlat flat = true → checkFlat tt flat = true := by
+  unfold isaOK at hok
+  have h := List.all_eq_true.mp hok c hc
+  unfold instrOK at h
+  rw [hcov] at h
+  simp only [Bool.not_true, Bool.false_or] at h
+  cases he : expand is expandFuel c with
+  | none => rw [he] at h; cases h
+  | some flats =>
+    rw [he] at h
+    refine ⟨flats, rfl, fun flat hf hd => ?_⟩
+    have := List.all_eq_true.mp h flat hf
+    rw [hd] at this
+    simpa using this
+
 end Proofs.Encode
